@@ -266,6 +266,7 @@ func (w *World) genCollateral(r Rand) {
 			// with the module branch on, components 0 and 1 are not compared: make them exceed
 			l.Tdx[0], l.Tdx[1] = 255, 255
 		}
+		l.Date = RandTcbDate(r)
 		d.Levels = append(d.Levels, l)
 	}
 	w.ModLevelIdx = -1
@@ -284,15 +285,16 @@ func (w *World) genCollateral(r Rand) {
 					var lv ModLevel
 					switch {
 					case i < ml:
-						lv = ModLevel{uint32(p.Tee[0]) + 1 + uint32(r.Draw(50)), Statuses[r.Draw(len(Statuses))]}
+						lv = ModLevel{uint32(p.Tee[0]) + 1 + uint32(r.Draw(50)), Statuses[r.Draw(len(Statuses))], ""}
 					case i == ml:
-						lv = ModLevel{uint32(r.Draw(int(p.Tee[0]) + 1)), "UpToDate"}
+						lv = ModLevel{uint32(r.Draw(int(p.Tee[0]) + 1)), "UpToDate", ""}
 						if r.Bool() {
 							lv.Isvsvn = uint32(p.Tee[0])
 						}
 					default:
-						lv = ModLevel{uint32(r.Draw(int(p.Tee[0]) + 1)), Statuses[r.Draw(len(Statuses))]}
+						lv = ModLevel{uint32(r.Draw(int(p.Tee[0]) + 1)), Statuses[r.Draw(len(Statuses))], ""}
 					}
+					lv.Date = RandTcbDate(r)
 					mi.Levels = append(mi.Levels, lv)
 				}
 			} else {
@@ -314,7 +316,7 @@ func (w *World) genCollateral(r Rand) {
 				if dup {
 					continue
 				}
-				mi.Levels = []ModLevel{{uint32(r.Draw(10)), Statuses[r.Draw(len(Statuses))]}}
+				mi.Levels = []ModLevel{{uint32(r.Draw(10)), Statuses[r.Draw(len(Statuses))], ""}}
 			}
 			d.Modules = append(d.Modules, mi)
 		}
@@ -336,16 +338,19 @@ func (w *World) genCollateral(r Rand) {
 	for i := 0; i < nq; i++ {
 		switch {
 		case i < mq:
-			qe.Levels = append(qe.Levels, QELevel{uint32(p.QE.IsvSvn) + 1 + uint32(r.Draw(int(65535-p.QE.IsvSvn))), Statuses[r.Draw(len(Statuses))]})
+			qe.Levels = append(qe.Levels, QELevel{uint32(p.QE.IsvSvn) + 1 + uint32(r.Draw(int(65535-p.QE.IsvSvn))), Statuses[r.Draw(len(Statuses))], ""})
 		case i == mq:
 			v := uint32(r.Draw(int(p.QE.IsvSvn) + 1))
 			if r.Bool() {
 				v = uint32(p.QE.IsvSvn)
 			}
-			qe.Levels = append(qe.Levels, QELevel{v, "UpToDate"})
+			qe.Levels = append(qe.Levels, QELevel{v, "UpToDate", ""})
 		default:
-			qe.Levels = append(qe.Levels, QELevel{uint32(r.Draw(int(p.QE.IsvSvn) + 1)), Statuses[r.Draw(len(Statuses))]})
+			qe.Levels = append(qe.Levels, QELevel{uint32(r.Draw(int(p.QE.IsvSvn) + 1)), Statuses[r.Draw(len(Statuses))], ""})
 		}
+	}
+	for i := range qe.Levels {
+		qe.Levels[i].Date = RandTcbDate(r)
 	}
 	w.QE = qe
 
